@@ -42,7 +42,8 @@ vars == <<keys, croles, req, pc, ident, addr, status, touched, listing>>
 -----------------------------------------------------------------------------
 (* reference definitions, independent of the pipeline *)
 
-Proxied(r) == r.peer = "trusted" /\ r.xff # "none"
+\* "trusted6" = a proxy configured as a bare IPv6 address; "neighbour6" = another host in the same /32 (must NOT be trusted)
+Proxied(r) == r.peer \in {"trusted", "trusted6"} /\ r.xff # "none"
 
 \* the certificate that legitimately speaks for the caller
 TrueCert(r) == IF Proxied(r) THEN r.hdr ELSE r.tls
@@ -68,7 +69,8 @@ Hidden(n) == keys[n].hide \/ (keys[n].kind = "alias" /\ keys[n].target \in KeyNa
 -----------------------------------------------------------------------------
 (* the pipeline as implemented *)
 
-PipeProxied(r) == IF Variant = "HeaderFromAnyone" THEN r.xff # "none" ELSE Proxied(r)
+PipeProxied(r) == IF Variant = "HeaderFromAnyone" THEN r.xff # "none"
+                  ELSE IF Variant = "PrefixTrust6" /\ r.peer = "neighbour6" THEN r.xff # "none" ELSE Proxied(r)
 PipeCert(r) == IF PipeProxied(r) THEN r.hdr ELSE r.tls
 PipeRecognised(id) == id \in {"fp", "ca"} \/ (Variant = "IgnoreEKU" /\ id = "canoeku")
 PipeRoles(id) == IF id = "fp" THEN croles.fp ELSE IF id \in {"ca", "canoeku"} THEN croles.ca ELSE {}
